@@ -754,6 +754,14 @@ class Inliner:
                 if h.owner[0] == "class" and h.owner[1] is cls and \
                         h.name == f.attr:
                     return h
+        # ClassName.helper(...) for a static helper of a class of this
+        # module (from a method or from a module-level function)
+        if isinstance(f, ast.Attribute) and isinstance(f.value, ast.Name):
+            for h in self.helpers.values():
+                if h.owner[0] == "class" and getattr(h, "static", False) \
+                        and h.owner[1].name == f.value.id and \
+                        h.name == f.attr:
+                    return h
         return None
 
     def _foreign(self, target):
